@@ -80,6 +80,12 @@ type Sim struct {
 	topicIDs map[[16]byte]string // learned from Metadata responses on the wire
 	wirelog  bool
 	rngMu    sync.Mutex
+
+	// C13 closer (closer.go)
+	closeOnces   map[*kgo.Client]*closeOnce
+	pendingHooks *closeHooks
+	clientOrd    int
+	closer       *closer
 }
 
 // TopicByID resolves a topic id seen on the wire.
@@ -245,7 +251,7 @@ func Run(t *testing.T, p *plan.Plan, body func(s *Sim)) *plan.Result {
 	rtSeed(p.Seed, uint32(p.Knob("sched", 0)), uint32(p.Knob("yield", 0)))
 	rand.Seed(int64(p.Seed))
 	crand.Reader = seededReader{rand.New(rand.NewSource(int64(p.Seed ^ 0x5eed)))}
-	s := &Sim{T: t, P: p, stats: map[string]int64{}, clients: map[string]*kgo.Client{}, topicIDs: map[[16]byte]string{}}
+	s := &Sim{T: t, P: p, stats: map[string]int64{}, clients: map[string]*kgo.Client{}, topicIDs: map[[16]byte]string{}, closeOnces: map[*kgo.Client]*closeOnce{}}
 	s.OnResp = append(s.OnResp, s.learnTopics)
 	s.wirelog = p.Knob("wirelog", 0) != 0
 	if p.Knob("evlog", 0) != 0 {
@@ -275,6 +281,7 @@ func Run(t *testing.T, p *plan.Plan, body func(s *Sim)) *plan.Result {
 			s.drng = rand.New(rand.NewSource(int64(p.Seed ^ 0x9e3779b9)))
 			s.Net = NewSimNet(p.Seed, basePort)
 			s.Net.latMode = p.Knob("latmode", 0)
+			s.Net.dialTimeout = time.Duration(p.Knob("dial_timeout_ms", 10000)) * time.Millisecond
 			s.Net.onServerWrite = s.serverWrote
 			s.stop = make(chan struct{})
 			s.done = make(chan struct{})
@@ -340,7 +347,16 @@ func stack() string {
 func (s *Sim) shutdown() {
 	s.simEnd = s.Now()
 	for _, name := range s.sortedClients() {
-		s.clients[name].Close()
+		cl := s.clients[name]
+		done := make(chan struct{})
+		go func() { s.CloseCl(cl, s.P.Knob("block_rebalance", 0) != 0); close(done) }()
+		select {
+		case <-done:
+		case <-time.After(10 * time.Minute):
+			// the run must end with a verdict, not with the harness waiting
+			// for ever behind a Close that never returns
+			s.Violf("C13/hang/close-at-shutdown", "Close of %s at the end of the run did not return within 10m\n%s", name, goroutineDump("kgo"))
+		}
 	}
 	if s.stop != nil {
 		select {
@@ -435,7 +451,7 @@ func (s *Sim) StartDriver() {
 
 // BaseOpts are the client options every simulated client gets.
 func (s *Sim) BaseOpts(name string) []kgo.Opt {
-	return []kgo.Opt{
+	return append(s.closerOpts(), []kgo.Opt{
 		kgo.SeedBrokers(fmt.Sprintf("127.0.0.1:%d", basePort)),
 		kgo.Dialer(s.Net.Dialer(name)),
 		kgo.WithLogger(&kgoLogger{s}),
@@ -444,7 +460,7 @@ func (s *Sim) BaseOpts(name string) []kgo.Opt {
 		kgo.RetryTimeout(time.Duration(s.P.Knob("retry_timeout_ms", 8000)) * time.Millisecond),
 		kgo.MetadataMinAge(time.Duration(s.P.Knob("meta_min_ms", 100)) * time.Millisecond),
 		kgo.MetadataMaxAge(time.Duration(s.P.Knob("meta_max_ms", 5000)) * time.Millisecond),
-	}
+	}...)
 }
 
 // Client creates a named kgo client on the simulated network. It is closed
@@ -457,6 +473,7 @@ func (s *Sim) Client(name string, opts ...kgo.Opt) *kgo.Client {
 	s.mu.Lock()
 	s.clients[name] = cl
 	s.mu.Unlock()
+	s.registerClient(name, cl)
 	return cl
 }
 
@@ -465,6 +482,7 @@ func (s *Sim) Adopt(name string, cl *kgo.Client) {
 	s.mu.Lock()
 	s.clients[name] = cl
 	s.mu.Unlock()
+	s.registerClient(name, cl)
 }
 
 // Forget removes a client from the auto-close list (the scenario closed it).
